@@ -18,6 +18,13 @@
 //!       nports channel halves in the value; poison: `Deserialize` fails at the end;
 //!       L / W: encoded length / encoded bytes written before the failure (derived, re-checked by exec)
 //!   recv op:  1        burst end (mpsc): 2        drop remote sender i (mpsc): 3 i
+//!   stalled recv op:  4 k at    (kinds 0, 1, 3, 6; elsewhere a plain recv)
+//!       a `recv` whose deserializer thread -- if the value at the head is a streamed one -- is held after
+//!       `at` payload bytes (a deserializer slower than the transport: the bounded chunk queue to it runs
+//!       full when the value has more chunks than the queue holds); the pending `recv` future is dropped
+//!       and `recv` called again up to `k` times, then the deserializer is released and the call awaited.
+//!       `recv` is cancel safe and the speed of the helper thread is no part of the meaning of a receive,
+//!       so the result is that of a plain recv op (the model decodes it as one).
 //!   kinds 2 and 5: the 5th number (rb) is the number of remote senders (1..3)
 //! Output, kinds 0/1/3, per send: class (0 Ok, 1 Serialize, 2 MaxItemSizeExceeded, 3 Send,
 //!   4 pending->cancelled, 5 other, 6 rejected at once because the channel has failed), mode (0 buffered,
@@ -31,13 +38,18 @@ use remoc::{
     rch::{base, lr, mpsc, oneshot},
     Cfg, Connect,
 };
-use serde::{de::Error as _, ser::Error as _, ser::SerializeSeq, Deserialize, Deserializer, Serialize, Serializer};
+use serde::{
+    de::{Error as _, SeqAccess, Visitor},
+    ser::Error as _,
+    ser::SerializeSeq,
+    Deserialize, Deserializer, Serialize, Serializer,
+};
 use futures::FutureExt;
 use std::{
     marker::PhantomData,
     sync::{
-        atomic::{AtomicU64, Ordering},
-        Arc, Mutex,
+        atomic::{AtomicBool, AtomicU64, Ordering},
+        Arc, Condvar, Mutex,
     },
     time::Duration,
 };
@@ -45,9 +57,63 @@ use tokio::sync::mpsc as tmpsc;
 
 pub const COMP: u128 = 4;
 const POISON: u8 = 0xEE;
+/// rch::base::BIG_DATA_CHUNK_QUEUE (private): only used to draw chunk counts around it and for the signature
+const CHUNK_QUEUE: usize = 32;
 
 fn debug() -> bool {
     std::env::var("VH_DEBUG").is_ok()
+}
+
+// ------------------------------------------------------------------------------------------------
+// the deserializer gate: a deserializer that is slower than the transport, deterministically
+
+/// While closed, `Payload::deserialize` running on a helper thread (a streamed value) stops before it
+/// reads payload byte number `at` (or the end of the payload) until the gate opens.  Deserialization
+/// on the runtime thread itself (buffered values) never waits: it would stop the world.
+struct Gate {
+    closed: bool,
+    at: usize,
+}
+static GATE: Mutex<Gate> = Mutex::new(Gate { closed: false, at: 0 });
+static GATE_CV: Condvar = Condvar::new();
+static GATE_CLOSED: AtomicBool = AtomicBool::new(false);
+/// number of times a deserializer was actually held
+static GATE_HELD: AtomicU64 = AtomicU64::new(0);
+thread_local! {
+    static ON_RUNTIME_THREAD: std::cell::Cell<bool> = const { std::cell::Cell::new(false) };
+}
+
+fn gate_set(closed: bool, at: usize) {
+    let mut g = GATE.lock().unwrap_or_else(|e| e.into_inner());
+    g.closed = closed;
+    g.at = at;
+    GATE_CLOSED.store(closed, Ordering::SeqCst);
+    GATE_CV.notify_all();
+}
+
+fn gate_wait(pos: usize) {
+    if !GATE_CLOSED.load(Ordering::SeqCst) || ON_RUNTIME_THREAD.with(|c| c.get()) {
+        return;
+    }
+    let mut g = GATE.lock().unwrap_or_else(|e| e.into_inner());
+    let started = std::time::Instant::now();
+    let mut counted = false;
+    // (the time limit only keeps an orphaned helper thread of an abandoned case from staying forever)
+    while g.closed && pos >= g.at && started.elapsed() < Duration::from_secs(60) {
+        if !counted {
+            GATE_HELD.fetch_add(1, Ordering::SeqCst);
+            counted = true;
+        }
+        g = GATE_CV.wait_timeout(g, Duration::from_secs(5)).unwrap_or_else(|e| e.into_inner()).0;
+    }
+}
+
+/// opens the gate when the case is over, whatever way it ends
+struct GateGuard;
+impl Drop for GateGuard {
+    fn drop(&mut self) {
+        gate_set(false, 0);
+    }
 }
 
 // ------------------------------------------------------------------------------------------------
@@ -78,7 +144,25 @@ impl Serialize for Payload {
 
 impl<'de> Deserialize<'de> for Payload {
     fn deserialize<D: Deserializer<'de>>(d: D) -> Result<Self, D::Error> {
-        let bytes = Vec::<u8>::deserialize(d)?;
+        // as `Vec::<u8>::deserialize`, passing the deserializer gate before every element and before the end
+        struct Bytes;
+        impl<'de> Visitor<'de> for Bytes {
+            type Value = Vec<u8>;
+            fn expecting(&self, f: &mut std::fmt::Formatter) -> std::fmt::Result {
+                f.write_str("a sequence of bytes")
+            }
+            fn visit_seq<A: SeqAccess<'de>>(self, mut seq: A) -> Result<Vec<u8>, A::Error> {
+                let mut v = Vec::with_capacity(seq.size_hint().unwrap_or(0).min(4096));
+                loop {
+                    gate_wait(v.len());
+                    match seq.next_element::<u8>()? {
+                        Some(b) => v.push(b),
+                        None => return Ok(v),
+                    }
+                }
+            }
+        }
+        let bytes = d.deserialize_seq(Bytes)?;
         if bytes.first() == Some(&POISON) {
             return Err(D::Error::custom("scripted deserialization failure"));
         }
@@ -210,6 +294,8 @@ enum Op {
     Recv,
     Burst,
     Drop(usize),
+    /// recv with the deserializer held after `at` payload bytes, dropped and repeated up to `k` times
+    StallRecv { k: usize, at: usize },
 }
 
 #[derive(Debug)]
@@ -269,6 +355,13 @@ fn parse(inp: &[u128]) -> Option<Case> {
                 }
                 ops.push(Op::Drop(inp[i + 1] as usize));
                 i += 2;
+            }
+            4 => {
+                if i + 2 >= inp.len() || inp[i + 1] > 8 || inp[i + 2] > 100_000 {
+                    return None;
+                }
+                ops.push(Op::StallRecv { k: inp[i + 1] as usize, at: inp[i + 2] as usize });
+                i += 3;
             }
             _ => return None,
         }
@@ -536,6 +629,8 @@ struct Trace {
     ticks: u64,
     /// everything in flight was delivered and drained at the end
     complete: bool,
+    /// per stalled recv op: how often its pending future was dropped, whether a deserializer was held
+    stalls: Vec<(usize, bool)>,
 }
 
 #[derive(Serialize, Deserialize)]
@@ -583,6 +678,8 @@ async fn run_stream(c: &Case) -> Option<Trace> {
     let net = Net::new(true);
     let (cfg_a, cfg_b) = cfgs(c);
     let mut w = World::new(net.clone());
+    gate_set(false, 0);
+    let _gate_guard = GateGuard;
     let (tx, rx, _keep_conn): (AnyTx, AnyRx, Box<dyn std::any::Any + Send>);
     let (ja, jb);
     if c.kind == 3 {
@@ -682,9 +779,41 @@ async fn run_stream(c: &Case) -> Option<Trace> {
                 rres_nums(&res, &mut t.out);
                 t.recvs.push(res);
             }
+            Op::StallRecv { k, at } => {
+                let held0 = GATE_HELD.load(Ordering::SeqCst);
+                gate_set(true, *at);
+                let n0 = rdone.lock().unwrap().len();
+                let _ = rcmd_tx.send(());
+                w.barrier().await;
+                // every dropped attempt leaves one `Pending` entry; the attempt under way will fill
+                // entry n0 + drops
+                let mut drops = 0;
+                while drops < *k && rdone.lock().unwrap().len() == n0 + drops && !w.livelock {
+                    let _ = rcancel_tx.send(());
+                    w.barrier().await;
+                    if rdone.lock().unwrap().len() != n0 + drops + 1 {
+                        break;
+                    }
+                    drops += 1;
+                    let _ = rcmd_tx.send(());
+                    w.barrier().await;
+                }
+                let held = GATE_HELD.load(Ordering::SeqCst) > held0;
+                gate_set(false, 0);
+                w.barrier().await;
+                if rdone.lock().unwrap().len() == n0 + drops {
+                    let _ = rcancel_tx.send(());
+                    w.barrier().await;
+                }
+                let res = rdone.lock().unwrap().get(n0 + drops).cloned().unwrap_or(RRes::ErrOther);
+                rres_nums(&res, &mut t.out);
+                t.recvs.push(res);
+                t.stalls.push((drops, held));
+            }
             _ => {}
         }
     }
+    gate_set(false, 0);
     // drain for the oracle: receive until nothing more comes
     for _ in 0..(c.ops.len() + 4) {
         if w.livelock {
@@ -806,7 +935,7 @@ async fn run_mpsc(c: &Case) -> Option<Trace> {
                     t.sends.push((s, res, WireObs::default()));
                 }
             }
-            Op::Recv => {
+            Op::Recv | Op::StallRecv { .. } => {
                 let res = match rx.recv().now_or_never() {
                     Some(r) => mpsc_recv_res(r),
                     None => RRes::Pending,
@@ -1199,6 +1328,16 @@ fn signature(c: &Case, t: &Trace) -> String {
     if t.recvs.iter().any(|r| matches!(r, RRes::Pending)) {
         add("rpend", &mut feats);
     }
+    // a pending recv was dropped and repeated while a deserializer thread was held / while nothing was
+    if t.stalls.iter().any(|(d, h)| *d > 0 && *h) {
+        add("stall", &mut feats);
+    } else if t.stalls.iter().any(|(d, _)| *d > 0) {
+        add("redrop", &mut feats);
+    }
+    // a completely streamed value of more chunks than the queue to the deserializer thread holds
+    if t.sends.iter().any(|(_, r, o)| *r == SRes::Ok && o.mode == 1 && o.bytes.div_ceil(c.cs as usize) > CHUNK_QUEUE) {
+        add("long", &mut feats);
+    }
     feats.sort();
     for f in feats {
         s.push(':');
@@ -1216,6 +1355,7 @@ fn run_once(c: &Arc<Case>) -> Result<Trace, (Vec<u128>, String, String)> {
     let c2 = c.clone();
     std::thread::spawn(move || {
         let rt = tokio::runtime::Builder::new_current_thread().enable_time().start_paused(true).build().unwrap();
+        ON_RUNTIME_THREAD.with(|c| c.set(true));
         let t = rt.block_on(async {
             // remoc's one-time thread test (a plain thread that the paused clock does not wait for)
             let _ = remoc::exec::are_threads_available().await;
@@ -1326,7 +1466,8 @@ impl ItemGen {
 pub fn gen(r: &mut Rng, i: usize) -> Vec<Vec<u128>> {
     let slot = i % 20;
     let kind: u64 = match slot {
-        0..=6 => 0,
+        0..=5 => 0,
+        6 => 101, // long streamed values and a stalled deserializer
         7..=10 => 1,
         11..=14 => 2,
         15 => 3,
@@ -1362,12 +1503,69 @@ pub fn gen(r: &mut Rng, i: usize) -> Vec<Vec<u128>> {
             for _ in 0..r.range(3, 10) {
                 v.extend(g.item(r, 0, true, true));
                 if r.chance(1, 2) {
-                    v.push(1);
+                    if r.chance(1, 6) {
+                        v.extend([4, r.range(1, 2) as u128, r.below(20) as u128]);
+                    } else {
+                        v.push(1);
+                    }
                     if r.chance(1, 5) {
                         v.push(1);
                     }
                 }
             }
+            v.extend([1, 1]);
+        }
+        101 => {
+            // Values streamed in many chunks -- around and above the capacity of the queue to the
+            // deserializer thread -- met by receives whose deserializer is held at some payload byte
+            // while the pending recv future is dropped and recv called again.
+            let kind = if r.chance(1, 4) { 3 } else { 0 };
+            let cs = *r.pick(&[4u64, 5, 7, 8]);
+            let smd = *r.pick(&[8u64, 16, 32, 64]);
+            let rmd = if r.chance(1, 2) { smd } else { *r.pick(&mds) };
+            let rmax = if r.chance(3, 4) { 100_000 } else { *r.pick(&[64u64, 100, 150, 300]) };
+            g.thresholds = vec![smd, rmd];
+            g.cs = cs;
+            g.smax = 100_000;
+            v.extend([kind as u128, smd as u128, rmd as u128, cs as u128, 64, 100_000, rmax as u128]);
+            let q = CHUNK_QUEUE as u64;
+            let mut last_plen = 0;
+            let stalled = |r: &mut Rng, last_plen: u64| -> Vec<u128> {
+                let at = match r.below(3) {
+                    0 => 0,
+                    1 => r.below(12),
+                    _ => r.range(0, last_plen.max(1)),
+                };
+                vec![4, r.range(1, 3) as u128, at as u128]
+            };
+            for _ in 0..r.range(2, 5) {
+                if r.chance(2, 3) {
+                    let chunks = match r.below(4) {
+                        0 | 1 => r.range(q - 3, q + 6),
+                        2 => r.range(q + 7, 2 * q),
+                        _ => r.range(2 * q, 3 * q),
+                    };
+                    let plen = (chunks * cs + r.below(cs)).saturating_sub(3);
+                    let poison = r.chance(1, 10);
+                    let fail = if r.chance(1, 6) { r.range(0, plen) + 1 } else { 0 };
+                    let (l, w) = measure(g.next_tag, plen as usize, fail as usize, 0, poison, false);
+                    v.extend([0, 0, g.next_tag as u128, plen as u128, fail as u128, 0, poison as u128, l as u128, w as u128]);
+                    g.next_tag += 1;
+                    last_plen = plen;
+                } else {
+                    let it = g.item(r, 0, true, true);
+                    last_plen = it[3] as u64;
+                    v.extend(it);
+                }
+                if r.chance(2, 3) {
+                    if r.chance(3, 4) {
+                        v.extend(stalled(r, last_plen));
+                    } else {
+                        v.push(1);
+                    }
+                }
+            }
+            v.extend(stalled(r, last_plen));
             v.extend([1, 1]);
         }
         1 => {
